@@ -114,6 +114,10 @@ MUTANTS = [
     ("load-uses-bare-name-when-it-exists", "C14", MG,
      "    file_name = auto_add_extension(file_name, engine)\n\n    if not os.path.exists(file_name) and create_new:",
      "    if not os.path.exists(file_name):\n        file_name = auto_add_extension(file_name, engine)\n\n    if not os.path.exists(file_name) and create_new:"),
+    # ---- sixth review round ---------------------------------------------------------------
+    ("harvest-cases-labelled-by-runner-signature", "C13", FA,
+     "        ds = self.runner.run_cases(cases, **runner_settings)\n",
+     "        cases = parse_cases(cases, self.runner.fn_args)\n        ds = self.runner.run_cases(cases, **runner_settings)\n"),
 ]
 
 # Equivalent in this environment (NOT caught, and cannot be: behaviour is unchanged):
